@@ -33,7 +33,7 @@ def normalised(path: str) -> str:
 def apply_variant(v: dict) -> Tuple[Optional[Dict[str, str]], str]:
     """overlay for the variant, or (None, reason) when the edit does not apply to the current tree."""
     overlay: Dict[str, str] = {}
-    edits = v.get("edits") or [{"file": v["file"], "old": v["old"], "new": v["new"]}]
+    edits = v.get("edits") or [{"file": v["file"], "old": v["old"], "new": v["new"], "count": v.get("count", 1)}]
     for ed in edits:
         path = os.path.join(repo_root(), ed["file"])
         if not os.path.exists(path):
